@@ -55,6 +55,12 @@ var transTargets = []transTarget{
 	{"node/kafkaproducer/kafkaproducer.go", "KafkaProducer", "Process", "", "kpProcess"},
 	// C04 / C01 (root delivery, F11)
 	{"executor/executor.go", "Executor", "Execute", "loop2", "exRootDeliverBody"},
+	// C03 / C05
+	{"executor/executor.go", "Executor", "runNode", "loop0", "exRunNodeBody"},
+	{"executor/executor.go", "Executor", "runNode", "closure:shutDownNode", "exShutDownNode"},
+	{"executor/executor.go", "Executor", "startWorkers", "head0", "exStartWorkersHead"},
+	{"executor/executor.go", "Executor", "startWorkers", "loop0", "exStartWorkersBody"},
+	{"executor/executor.go", "Executor", "startWorkers", "tail0", "exStartWorkersTail"},
 	// C17 / C03
 	{"executor/executor.go", "Executor", "Execute", "tail1", "exExecuteTail"},
 	{"executor/executor.go", "", "waitTimeout", "", "exWaitTimeout"},
@@ -269,11 +275,16 @@ func (t *translator) selectRecv(s ast.Stmt, x *ast.SelectStmt) []string {
 	var out, chans []string
 	for _, c := range x.Body.List {
 		cc := c.(*ast.CommClause)
-		es, ok := cc.Comm.(*ast.ExprStmt)
-		if !ok {
-			return nil
+		var rx ast.Expr
+		switch cm := cc.Comm.(type) {
+		case *ast.ExprStmt:
+			rx = cm.X
+		case *ast.AssignStmt: // v, ok := <-ch
+			if len(cm.Rhs) == 1 {
+				rx = cm.Rhs[0]
+			}
 		}
-		u, ok := es.X.(*ast.UnaryExpr)
+		u, ok := rx.(*ast.UnaryExpr)
 		if !ok || u.Op != token.ARROW {
 			return nil
 		}
@@ -289,7 +300,17 @@ func (t *translator) selectRecv(s ast.Stmt, x *ast.SelectStmt) []string {
 	chain := "(.unsupported \"select: no such case\")"
 	for i := len(x.Body.List) - 1; i >= 0; i-- {
 		cc := x.Body.List[i].(*ast.CommClause)
-		chain = fmt.Sprintf("(.ite (.eq (.var \"$sel\") (.lit %d))\n    (blk [%s])\n    %s)", i, strings.Join(t.stmts(cc.Body), ",\n    "), chain)
+		body := t.stmts(cc.Body)
+		if as, ok := cc.Comm.(*ast.AssignStmt); ok {
+			// the received value (and the "channel still open" flag) are inputs of the case
+			var lhs []string
+			for _, l := range as.Lhs {
+				lhs = append(lhs, exprString(l))
+			}
+			fn := "recv " + exprString(as.Rhs[0].(*ast.UnaryExpr).X)
+			body = append([]string{fmt.Sprintf("(.call [%s] %s [])", bindPairs(lhs, fn), leanStr(fn))}, body...)
+		}
+		chain = fmt.Sprintf("(.ite (.eq (.var \"$sel\") (.lit %d))\n    (blk [%s])\n    %s)", i, strings.Join(body, ",\n    "), chain)
 	}
 	return append(out, chain)
 }
@@ -319,6 +340,14 @@ func (t *translator) stmt(s ast.Stmt) []string {
 		}
 		if fl, ok := c.Fun.(*ast.FuncLit); ok && len(c.Args) == 0 {
 			return []string{t.block(fl.Body)} // func() { ... }() : the block, in place
+		}
+		if len(c.Args) == 1 && strings.HasSuffix(exprString(c.Fun), ".Do") {
+			if fl, ok := c.Args[0].(*ast.FuncLit); ok && len(fl.Type.Params.List) == 0 {
+				// once.Do(func() {...}): sync.Once runs the function iff this is the first call - the input "<once>.Do#0"
+				fn := exprString(c.Fun)
+				return []string{fmt.Sprintf("(.call [(\"$once\", %s)] %s [])", leanStr(fn+"#0"), leanStr(fn)),
+					fmt.Sprintf("(.ite (.var \"$once\")\n    %s\n    .skip)", t.block(fl.Body))}
+			}
 		}
 		return t.withPre(s, func() string { return t.callStmt(nil, c) })
 	case *ast.DeferStmt:
@@ -606,6 +635,20 @@ func writeTrans(repo string) string {
 			if fd, ok := d.(*ast.FuncDecl); ok && fd.Name.Name == tt.name && recvName(fd) == tt.recv && fd.Body != nil {
 				body = fd.Body
 			}
+		}
+		if body != nil && strings.HasPrefix(tt.part, "closure:") {
+			// the body of a function literal assigned to a local variable: name := func() {...}
+			var found *ast.BlockStmt
+			want := strings.TrimPrefix(tt.part, "closure:")
+			ast.Inspect(body, func(nd ast.Node) bool {
+				if as, ok := nd.(*ast.AssignStmt); ok && len(as.Lhs) == 1 && len(as.Rhs) == 1 && exprString(as.Lhs[0]) == want {
+					if fl, ok := as.Rhs[0].(*ast.FuncLit); ok {
+						found = fl.Body
+					}
+				}
+				return found == nil
+			})
+			body = found
 		}
 		if body != nil && strings.HasPrefix(tt.part, "loop") {
 			n := 0
